@@ -606,7 +606,9 @@ class ExpressionEngine:
         if other:
             for supported in '"', '\'', '':
                 if supported in char_escape:
-                    quote = supported
+                    # an attribute written without quotes has no
+                    # quote character that would need escaping
+                    quote = supported or None
                     break
             else:
                 raise RuntimeError(
